@@ -203,6 +203,34 @@ func (c *Conn) kill() {
 	c.closed = true
 }
 
+// netWrites folds the row writes of one statement per row: a multi-row INSERT
+// ... ON DUPLICATE KEY UPDATE may insert a key and update it again in the same
+// statement; what the statement did to the row is first-before -> last-after.
+func netWrites(ws []RowWrite) []RowWrite {
+	if len(ws) < 2 {
+		return ws
+	}
+	idx := map[string]int{}
+	var out []RowWrite
+	for _, w := range ws {
+		k := w.Table + "\x00" + w.Key
+		if i, ok := idx[k]; ok {
+			out[i].After = w.After
+			continue
+		}
+		idx[k] = len(out)
+		out = append(out, w)
+	}
+	res := out[:0]
+	for _, w := range out {
+		if w.Before == nil && w.After == nil {
+			continue
+		}
+		res = append(res, w)
+	}
+	return res
+}
+
 var kvTextRe = regexp.MustCompile(`^[A-Za-z_]+=[^&=]*(&[A-Za-z_]+=[^&=]*)+$`)
 
 func canonKV(a interface{}) interface{} {
@@ -316,7 +344,7 @@ func (c *Conn) run(kind, sqlText string, args []interface{}, binary bool) (*resu
 		je.Seq = s.logf("DB c%d %s %s%s -> %v", c.id, kind, oneLine(sqlText), fmtArgs(args), err)
 	} else {
 		je.Affected, je.LastID, je.NRows = res.affected, res.lastID, len(res.rows)
-		je.StmtWrites = res.writes
+		je.StmtWrites = netWrites(res.writes)
 		if res.isQuery && je.Class == "meta" {
 			je.Seq = s.logq("DB c%d %s %s%s -> %d row(s)", c.id, kind, oneLine(sqlText), fmtArgs(args), len(res.rows))
 		} else if res.isQuery {
